@@ -11,7 +11,6 @@ import os
 import time
 from concurrent.futures import ProcessPoolExecutor
 from multiprocessing import get_context
-from pathlib import Path
 
 from drivers import _c01_tlc as T
 from vf.core import Ctx, jhash
@@ -29,7 +28,8 @@ META = {
             "client-observable history of each. The driver generates a real Protocol + implementation from each "
             "TLC-emitted program (stream state = serializable (script id, arg, pos) dataclass), runs each script over "
             "pipe, unix, tcp, shm-pipe, subprocess and in-process HTTP x max_response_bytes {None, tiny-but-legal, "
-            "large} x compression {off, zstd, gzip} x externalization {off, low threshold}; every recorded history "
+            "large} x compression {off, zstd, gzip-only client, gzip-only server} x externalization {off, low threshold}; "
+            "every recorded history "
             "is judged by TLC with Semantics!Conforms (equal to the spec history up to and including the first "
             "error) and against the reference transport's concrete values (transport-to-transport agreement).",
     "note": "Trusted: the projection of real values into the spec's vocabulary (drivers/_c01_world.py Recorder); the "
@@ -57,7 +57,11 @@ CLAUSE_DOC = {
     "ErrorEqual": "first error type + message", "EndEqual": "end of stream observed exactly when the producer finishes",
     "LogsEqual": "ordered log messages (level/text/extras)", "LogsBeforeError": "logs of a failing init/step dropped (C08)",
     "ExchangeTrailingLogs": "logs after an exchange's data batch dropped",
-    "AgreeResult": "", "AgreeHeader": "", "AgreeData": "", "AgreeLogs": "", "AgreeError": "", "CallCount": "", "Completes": "",
+    "AgreeResult": "concrete result equals the reference transport's", "AgreeHeader": "concrete header equals the reference transport's",
+    "AgreeData": "concrete batches (rows, schema, application metadata) equal the reference transport's",
+    "AgreeLogs": "concrete log messages (level, text, extras) equal the reference transport's",
+    "AgreeError": "concrete error type and message equal the reference transport's",
+    "CallCount": "one history entry per call of the script", "Completes": "the client gets through the script (no hang / escaped exception)",
 }
 
 
@@ -171,8 +175,6 @@ def _run(ctx: Ctx, pools: list) -> None:
     if getattr(ctx, "replay_record", None):
         det = ctx.replay_record["detail"]
         jobs = [{"case": {"calls": det["calls"]}, "xs": det["xs"], "cfgs": sorted({"pipe", det["cfg"]}, key=lambda z: z != "pipe")}]
-        if any(c.startswith("http:tiny") for c in jobs[0]["cfgs"]):
-            jobs[0]["cfgs"].insert(1, det["cfg"].replace(":tiny:", ":none:"))
         total = 1
     else:
         slices = QUICK_SLICES if ctx.quick else THOROUGH_SLICES
@@ -323,5 +325,6 @@ def _run(ctx: Ctx, pools: list) -> None:
                                               "observed": records[r]["obs"][k]["calls"][idx - 1] if idx >= 1 else None,
                                               "what": CLAUSE_DOC.get(name, "")})
     ctx.extra["clause_occurrences"] = counts
+    ctx.extra["clauses"] = {k: v for k, v in CLAUSE_DOC.items()}
     phases["total"] = round(time.time() - t_start, 1)
     ctx.extra["wall_phases_s"] = phases
